@@ -2,6 +2,7 @@ import NriModel.Wire
 import NriModel.Extracted.ApiSchema
 import NriModel.Lemmas.WireProps
 import NriModel.Lemmas.WireOrder
+import NriModel.Lemmas.WireBytes
 /-!
 Property theorems for C12 — both wire encodings of every protocol message agree.
 
@@ -80,6 +81,15 @@ theorem C12_size (S : Schema) (m : Nat) (v : List Val) : (encode S m v).length =
   encode_length S m v
 
 example : size demo 1 demoVal = 46 ∧ (encode demo 1 demoVal).length = 46 := by decide
+
+/-- Bytes are modelled as natural numbers; the encoder only ever writes numbers below 256. -/
+theorem C12_bytes (S : Schema) (hS : S.WF = true) (m : Nat) (v : List Val)
+    (hv : WellTyped S m v = true) (hlen : (encode S m v).length < 2 ^ 64) :
+    ∀ b ∈ encode S m v, b < 256 :=
+  encode_allLt S hS m v hv hlen
+
+example : ∀ b ∈ encode demo 1 demoVal, b < 256 :=
+  C12_bytes demo (by decide) 1 demoVal (by decide) (by decide)
 
 /-- No two distinct well-typed values share an encoding. -/
 theorem C12_injective (S : Schema) (hS : S.WF = true) (m : Nat) (v w : List Val)
